@@ -439,7 +439,6 @@ func main() {
 	blocks := []uint32{0, 1}
 	pots := []uint64{7, 1_000_000_000, 10_000_000_000_000, two53 + 1, two53 + 3, 45_000_000_000_000_000}
 	if c.Thorough() {
-		delegs = []int{1, 2, 3}
 		pots = []uint64{1, 7, 1_000_000_000, 10_000_000_000_000, two53 + 1, two53 + 3, 45_000_000_000_000_000}
 	}
 	mk := func(stakes []uint64, margins [][2]int64, costs []uint64, delegs []int) []poolCfg {
@@ -529,7 +528,7 @@ func main() {
 		base := ord.Load()
 		per := int64(len(pots) * combos)
 		a0s := []string{"3/10"}
-		if c.Thorough() {
+		if c.Thorough() && n == 2 {
 			a0s = []string{"3/10", "nil"}
 		}
 		vlib.Parallel(len(ws), func(wi int) {
